@@ -47,7 +47,7 @@ Inductive ReachC6 : url -> Prop :=
     ReachC6 u -> Forall op_ok ops -> query_pairs_session dbg u ops = Some u' ->
     nlen (ser u') <= U32_MAX_P -> ReachC6 u'
 | RC6_path u x u' :
-    ReachC6 u -> has_authority_b u = true -> usv_list x -> forallb no_qh x = true -> path_arg_ok x ->
+    ReachC6 u -> has_authority_b u = true -> usv_list x -> forallb no_qh x = true -> path_arg_ok (sp_of u) x ->
     set_path dbg u x = Some u' -> nlen (ser u') <= U32_MAX_P -> ReachC6 u'
 | RC6_host u x u' :
     ReachC6 u -> has_authority_b u = true -> forallb (hostarg (sp_of u)) x = true ->
@@ -220,7 +220,7 @@ Theorem all_set_path u x u' : Canon u -> has_authority_b u = true -> usv_list x 
   nlen (ser u') <= U32_MAX_P ->
   wfh u' /\ same_front dbg u u' /\ query dbg u' = query dbg u /\ fragment dbg u' = fragment dbg u
   /\ (exists P, path u' = Some P /\ new_path_ok P)
-  /\ (forallb no_qh x = true -> path_arg_ok x ->
+  /\ (forallb no_qh x = true -> path_arg_ok (sp_of u) x ->
       Canon u'
       /\ ((query_start u = None -> fragment_start u = None -> first_ok (rev x)) ->
           parse_url dbg hp hpo hd None None (splice_path u x) = POk u')).
@@ -304,7 +304,7 @@ Definition all_calls (dbg : bool) (hp hpo : list N -> result host) (hd : host ->
   /\ (forall x u', has_authority_b u = true -> usv_list x -> set_path dbg u x = Some u' -> nlen (ser u') <= U32_MAX_P ->
      wfh u' /\ same_front dbg u u' /\ query dbg u' = query dbg u /\ fragment dbg u' = fragment dbg u
      /\ (exists P, path u' = Some P /\ new_path_ok P)
-     /\ (forallb no_qh x = true -> path_arg_ok x ->
+     /\ (forallb no_qh x = true -> path_arg_ok (sp_of u) x ->
          Canon hp hpo hd u'
          /\ ((query_start u = None -> fragment_start u = None -> first_ok (rev x)) ->
              parse_url dbg hp hpo hd None None (splice_path u x) = POk u')))
